@@ -1904,9 +1904,13 @@ func (r *Raft) becomeLeader() {
 // becomeFollower transitions this node to the follower state.
 func (r *Raft) becomeFollower(leaderID string, term uint64) {
 	r.state = Follower
+	// The vote is only reset when entering a new term. A node that has already
+	// voted in the current term must not be able to vote for another candidate.
+	if term != r.currentTerm {
+		r.votedFor = ""
+	}
 	r.currentTerm = term
 	r.leaderID = leaderID
-	r.votedFor = ""
 	r.persistTermAndVote()
 	r.resetSnapshotFiles()
 
